@@ -19,7 +19,10 @@ Inductive ty :=
 | TList (t: ty)              (* List / Tuple[T,...] / Dict[str,T] values: a comprehension over the items, in order *)
 | TOpt (t: ty)               (* Optional[T]:  <packer> if value is not None else None *)
 | TUnion (cs: list nat)      (* Union of dataclasses *)
-| TDisc (p: nat) (withfield supertypes: bool).
+| TDisc (p: nat) (withfield supertypes: bool)
+| TDiscU (cs: list nat) (withfield subtypes supertypes: bool).
+    (* Annotated[Union[A, B, ...], Discriminator(field?, include_subtypes?, include_supertypes?)]: packed by the
+       union packer, unpacked by the variant dispatcher over the members' subclasses and/or the members *)
     (* Annotated[P, Discriminator(field="kind" | None, include_subtypes=True, include_supertypes=...)]:
        packed like P; unpacked by the variant dispatcher of the holder *)
 
@@ -226,7 +229,7 @@ Section Pack.
                     | VList l => seqM (map (fun x => pack m x t' pc px k) l)
                     | _ => fail_ end
       | TOpt t' => match v with VNone => ok_ [] | _ => on_ty t' pc px k end
-      | TUnion cs =>
+      | TUnion cs | TDiscU cs _ _ _ =>
           match inst with
           | Some (cr, i, j, subs) =>
               match m with
@@ -298,7 +301,8 @@ Section Wt.
       | TDisc p _ _ => inst_ok p
       | TList t' => match v with VList l => forallb (fun x => wt x t') l | _ => false end
       | TOpt t' => match v with VNone => true | _ => on_ty t' end
-      | TUnion cs => match v with
+      | TUnion cs | TDiscU cs _ _ _ =>
+                     match v with
                      | VInst cr _ _ _ => existsb (Nat.eqb cr) cs && inst_ok cr
                      | _ => false end
       end.
@@ -310,7 +314,7 @@ Fixpoint union_free (t: ty) : bool :=
   match t with
   | TInt | TDc _ => true
   | TList t' | TOpt t' => union_free t'
-  | TUnion _ => false
+  | TUnion _ | TDiscU _ _ _ _ => false
   | TDisc _ wf _ => wf end.
 Definition disc_det (C: cinfo) : bool := match c_disc C with Some false => false | _ => true end.
 Definition env_union_free (E: env) : bool :=
@@ -327,7 +331,7 @@ Section Uni.
     match t with
     | TInt | TDc _ | TDisc _ _ _ => true
     | TList t' | TOpt t' => union_uniform t'
-    | TUnion cs => all_same (map (fun c => c_ctx (cls E c)) cs) end.
+    | TUnion cs | TDiscU cs _ _ _ => all_same (map (fun c => c_ctx (cls E c)) cs) end.
   Definition env_union_uniform : bool :=
     forallb (fun C => forallb (fun f => union_uniform (f_ty f)) (c_fields C)) E.
 End Uni.
@@ -424,6 +428,8 @@ Section Unpack.
 
   Definition disc_variants (p: nat) (supertypes: bool) : list nat :=
     subclasses E p ++ (if supertypes then [p] else []).
+  Definition discu_variants (cs: list nat) (subtypes supertypes: bool) : list nat :=
+    (if subtypes then flat_map (subclasses E) cs else []) ++ (if supertypes then cs else []).
 
   Fixpoint unpack (w: wire) {struct w} : dsub :=
     let tag : option (option nat) := match w with WDict t _ => Some t | _ => None end in
@@ -458,6 +464,7 @@ Section Unpack.
                     | _ => dfail end
       | TOpt t' => match w with WNone => dret VNone | _ => on_ty t' end
       | TUnion cs => dtry (map call_dc (dedup_nat cs []))
+      | TDiscU cs wf sb sp => dispatch tag wf false (discu_variants cs sb sp) call_dc
       end.
 End Unpack.
 
